@@ -283,6 +283,29 @@ def main(tier: str, seed: int) -> int:
         max_len = max(2, sum(1 for s in sched if s != "reset") // 2)
         traces.append(run_env(rec, f"{label}#{i}", cfg, sched, max_len, rng))
         chk.add_case({"s": label, "sched": [x if isinstance(x, str) else list(x[:3]) for x in sched], "i": i})
+    # directed: the red applications that talk to the database meet a database whose file is gone (deleted by the defender),
+    # corrupted or being restored - ransomware (ENCRYPT) and the data-manipulation bot (DELETE) before and after
+    dcfg = scenarios.shipped("data_manipulation.yaml")
+    for n in dcfg["simulation"]["network"]["nodes"]:
+        if n["hostname"] == "client_1":
+            n["applications"] = list(n.get("applications") or []) + [{"type": "ransomware-script", "options": {"server_ip": "192.168.1.14"}}]
+    dam = dcfg["agents"][-1]["action_space"]["action_map"]
+    dkeys = {}
+    for nm, ent in (
+        ("ransom", {"action": "node-application-execute", "options": {"node_name": "client_1", "application_name": "ransomware-script"}}),
+        ("dmbot", {"action": "node-application-execute", "options": {"node_name": "client_1", "application_name": "data-manipulation-bot"}}),
+        ("delete", {"action": "node-file-delete", "options": {"node_name": "database_server", "folder_name": "database", "file_name": "database.db"}}),
+        ("corrupt", {"action": "node-file-corrupt", "options": {"node_name": "database_server", "folder_name": "database", "file_name": "database.db"}}),
+        ("restore", {"action": "node-file-restore", "options": {"node_name": "database_server", "folder_name": "database", "file_name": "database.db"}}),
+        ("fix", {"action": "node-service-fix", "options": {"node_name": "database_server", "service_name": "database-service"}}),
+    ):
+        dkeys[nm] = max(dam) + 1
+        dam[dkeys[nm]] = ent
+    dsched = [("act", nm, dkeys[nm], None) for nm in ("ransom", "restore", "fix", "delete", "ransom", "dmbot", "ransom", "restore", "ransom",
+                                                       "corrupt", "ransom", "dmbot", "delete", "dmbot", "fix", "ransom")]
+    dsched = dsched + ["reset"] + dsched[3:]
+    traces.append(run_env(rec, "directed:red_applications_vs_missing_database_file", dcfg, dsched, len(dsched) + 5, rng))
+    chk.add_case({"s": "directed:red_applications_vs_missing_database_file", "sched": [x if isinstance(x, str) else x[1] for x in dsched]})
     # transition tours of the life-cycle product (spec/Lifecycle.tla): every (power state x component state, action)
     # edge, i.e. every operation at every reachable state of a node and a service / application / file on it
     from . import tour
